@@ -108,6 +108,7 @@ def model(cfg, ctx, group, args):
     exp['not'] = cfg.val(pa ^ cfg.mask)
     # the by-reference and op-assign forms of the same operators
     exp['not_ref'] = exp['not']
+    exp['self_refs'] = (a, a, 0)
     for nm in ('and', 'or', 'xor'):
         exp[nm + '_refs'] = (exp[nm], exp[nm], exp[nm])
         exp[nm + '_assign'] = (exp[nm], exp[nm])
